@@ -708,7 +708,7 @@ class Dependency(object):
                 file_stat = self.checker.info(dep)
             except self.checker.CheckerError:
                 error_msg = "Dependent file '{}' does not exist.".format(dep)
-                result.error_reason = error_msg.format(dep)
+                result.error_reason = error_msg
                 if result.add_reason('missing_file_dep', dep, 'error'):
                     return result
             else:
